@@ -661,11 +661,18 @@ def SUMPRODUCT(
 
     # Multiply the corresponding entries of the arrays (row by row, column by
     # column) and add up those products.
+    # Entries that are not numeric (text, empty cells) are treated as zeros.
+    def factor(item):
+        if func_xltypes.Number.is_type(item) \
+                or func_xltypes.DateTime.is_type(item):
+            return item
+        return 0
+
     total = 0
     for items in zip(*[array.flat for array in arrays]):
         product = 1
         for item in items:
-            product = product * item
+            product = product * factor(item)
         total = total + product
     return total
 
